@@ -326,26 +326,40 @@ func runC04(r *core.R) {
 	}
 	type job struct {
 		path, state string
-		special     bool // output name with characters that are special to glob / shell style matching
+		special     bool   // output name with characters that are special to glob / shell style matching
+		cfgFlip     string // boolean key of config.yml set to the opposite of its default ("" = default configuration)
+	}
+	// the refusal must not depend on any configuration switch: every boolean of the configuration file, one at a time
+	cfgKeys := []string{"checkFileNameExt", "optimize", "writeObjectStream", "postProcessValidate"}
+	if !r.Quick() {
+		cfgKeys = append(cfgKeys, "reader15", "decodeAllStreams", "writeXRefStream", "encryptUsingAES", "optimizeResourceDicts", "optimizeDuplicateContentStreams", "createBookmarks", "needAppearances", "offline")
 	}
 	var jobs []job
 	for _, n := range names {
 		t := tmpl[n]
 		if t.outKind == "dir" {
 			for _, st := range []string{"empty", "nonempty", "nonempty+force"} {
-				jobs = append(jobs, job{n, st, false})
-				jobs = append(jobs, job{n, st, true})
+				jobs = append(jobs, job{n, st, false, ""})
+				jobs = append(jobs, job{n, st, true, ""})
+			}
+			for _, k := range cfgKeys {
+				jobs = append(jobs, job{n, "nonempty", false, k})
 			}
 		} else {
 			for _, st := range []string{"absent", "present", "present+force"} {
-				jobs = append(jobs, job{n, st, false})
-				jobs = append(jobs, job{n, st, true})
+				jobs = append(jobs, job{n, st, false, ""})
+				jobs = append(jobs, job{n, st, true, ""})
+			}
+			if n != "import" && n != "merge#append" { // their documented append semantics are the two recorded findings
+				for _, k := range cfgKeys {
+					jobs = append(jobs, job{n, "present", false, k})
+				}
 			}
 			if hasArg(t.args, "IN") {
-				jobs = append(jobs, job{n, "equal", false})
+				jobs = append(jobs, job{n, "equal", false, ""})
 			}
 			if t.inplace {
-				jobs = append(jobs, job{n, "omitted", false})
+				jobs = append(jobs, job{n, "omitted", false, ""})
 			}
 		}
 	}
@@ -394,6 +408,23 @@ func runC04(r *core.R) {
 			os.Mkdir(filepath.Join(dir, outdir), 0o755)
 			os.WriteFile(filepath.Join(dir, outdir, "precious.txt"), []byte("precious\n"), 0o600)
 		}
+		if j.cfgFlip != "" {
+			// let the CLI write its default configuration file, then flip one switch in it
+			runCLI(dir, nil, "version")
+			cf := filepath.Join(dir, ".cfg", "pdfcpu", "config.yml")
+			cb, err := os.ReadFile(cf)
+			re := regexp.MustCompile(`(?m)^` + j.cfgFlip + `: (true|false)\s*$`)
+			m := re.FindSubmatch(cb)
+			if err != nil || m == nil {
+				r.HarnessError("configuration file has no boolean %q (%v)", j.cfgFlip, err)
+				return
+			}
+			nv := "true"
+			if string(m[1]) == "true" {
+				nv = "false"
+			}
+			os.WriteFile(cf, re.ReplaceAll(cb, []byte(j.cfgFlip+": "+nv)), 0o644)
+		}
 		t0 := fsx.Snap(dir)
 		args := buildArgs(t, "work.pdf", out, outdir, force)
 		res := runCLI(dir, nil, args...)
@@ -403,7 +434,7 @@ func runC04(r *core.R) {
 		if j.state != "absent" && j.state != "empty" && j.state != "omitted" {
 			r.Nontrivial(1)
 		}
-		rep := map[string]any{"command": j.path, "state": j.state, "args": args, "special_output_name": j.special}
+		rep := map[string]any{"command": j.path, "state": j.state, "args": args, "special_output_name": j.special, "config_switch_flipped": j.cfgFlip}
 		var diffs []string
 		for _, d := range fsx.Diff(t0, t1) {
 			if !strings.Contains(d, ".cfg") {
@@ -433,7 +464,12 @@ func runC04(r *core.R) {
 				if what == "no refusal message" {
 					key = "no-refusal-message:" + j.path
 				}
-				r.Violation(key, fmt.Sprintf("pdfcpu %s with an existing output and no --force: %s (exit %d; stderr %q)", strings.Join(args, " "), what, res.code, trimTo(string(res.stderr), 200)), rep)
+				cfgNote := ""
+				if j.cfgFlip != "" {
+					key += ":config " + j.cfgFlip + " flipped"
+					cfgNote = " (configuration file with " + j.cfgFlip + " set to the opposite of its default)"
+				}
+				r.Violation(key, fmt.Sprintf("pdfcpu %s with an existing output and no --force%s: %s (exit %d; stderr %q)", strings.Join(args, " "), cfgNote, what, res.code, trimTo(string(res.stderr), 200)), rep)
 			}
 		default:
 			if res.code != 0 {
